@@ -47,3 +47,7 @@ VARIANTS += [
     M('C14', 'refactor-seed-stored-before-first-sample', [E(RX, "        self.seed = seed\n", ""), E(RX, "        prng_state = PRNGState(seed)   # the first sample is drawn here", "        self.seed = seed\n        prng_state = PRNGState(self.seed)   # the first sample is drawn here")], kind='refactor'),
     M('C14', 'pdextract-drops-the-seed', E(RX, "        return extract(strings, seed=seed)", "        return extract(strings)"), rule='C14-SEEDFWD', key='pdextract'),
 ]
+
+VARIANTS += [
+    M('C14', 'size-parameters-fall-back-when-falsy', E(RX, "                    self.__dict__[k] = v\n", "                    self.__dict__[k] = v or self.__dict__[k]\n"), rule='C14-SIZE', key='use_sampling=False'),
+]
